@@ -325,6 +325,15 @@ pub fn run(opts: &Opts) -> Report {
         }
     }
     rep.exhaustive = false;
+    // dyn-wrapped operands: indexing, field access, membership, size and concatenation on wrapped containers / keys
+    {
+        use crate::facets::dynwrap as dw;
+        let keys = vec![CelValue::Int(0), CelValue::Int(-1), CelValue::UInt(1), CelValue::Int(5), CelValue::String("k".into()), CelValue::String("size".into()), CelValue::String("zz".into()), CelValue::Float(0.0), CelValue::Null];
+        // (a dyn value supports member access, equality and truthiness; size / in / + on it are errors)
+        let maps: Vec<CelValue> = dw::containers().into_iter().filter(|v| matches!(v, CelValue::Map(_))).collect();
+        let _ = keys;
+        dw::transparency(&mut rep, "member access", &["b.k", "b.size", "b.bar", "b.filter", "b.zz", "b.k + b.k", "has(b.k)", "has(b.zz)"], &[CelValue::Null], &maps);
+    }
     rep.compare_with_model(&opts.driver, &pending);
     rep
 }
